@@ -766,7 +766,7 @@ pub fn pending_cases(_tier: Tier) -> Vec<super::c12::Case> {
     for (i, net) in patterns.into_iter().enumerate() {
         for app in [vec![], vec![(1u64, AppOp::Prov180)]] {
             for net_first in [false, true] {
-                out.push(C { app: app.clone(), net: net.clone(), net_first, rng: i as u8 });
+                out.push(C { app: app.clone(), net: net.clone(), net_first, rng: i as u8, ..Default::default() });
             }
         }
     }
@@ -824,6 +824,103 @@ pub fn check_pending(case: &super::c12::Case, out: &mut CaseOut) {
     out.nontrivial(case);
 }
 
+
+// ---------------------------------------------------------------------------------------------
+// in-dialog requests claimed by the INVITE usage of an ESTABLISHED session whose application is busy: the usage
+// hands re-INVITEs and BYEs to the session through a bounded queue; however many pile up before the application
+// drives the session again, each must still get its one final response (488 from this application for a
+// re-INVITE, 200 for the BYE)
+
+#[derive(Serialize, Deserialize, Clone, Debug, Hash)]
+pub struct BacklogCase {
+    /// how long the application does not drive the session after accepting the call
+    pub busy_ms: u64,
+    /// number of re-INVITEs the peer sends while the application is busy
+    pub reinvites: u8,
+    /// gap between them
+    pub gap_ms: u64,
+    /// the peer ends the call with a BYE after the re-INVITEs
+    pub bye: bool,
+    pub rng: u8,
+}
+
+pub fn backlog_cases(tier: Tier) -> Vec<BacklogCase> {
+    let mut out = vec![];
+    for &busy_ms in &[0u64, 3_000, 40_000] {
+        for reinvites in 0u8..=(if tier == Tier::Thorough { 12 } else { 8 }) {
+            for &gap_ms in &[1u64, 40] {
+                for bye in [false, true] {
+                    if reinvites == 0 && !bye {
+                        continue;
+                    }
+                    out.push(BacklogCase { busy_ms, reinvites, gap_ms, bye, rng: reinvites.wrapping_mul(7).wrapping_add(gap_ms as u8) });
+                }
+            }
+        }
+    }
+    out
+}
+
+pub fn check_backlog(c: &BacklogCase, out: &mut CaseOut) {
+    use super::c12::{AppOp, Case as C, NetOp};
+    let mut net = vec![(1u64, NetOp::Ack { cseq_ok: true })];
+    let mut t = 10u64;
+    for _ in 0..c.reinvites {
+        net.push((t, NetOp::ReInvite));
+        t += c.gap_ms;
+    }
+    if c.bye {
+        net.push((t, NetOp::Bye));
+    }
+    let case = C { app: vec![(0, AppOp::Accept)], net: net.clone(), net_first: false, rng: c.rng, session_busy_ms: c.busy_ms, ..Default::default() };
+    let obs = super::c12::run(&case, t + c.busy_ms + 80_000);
+    let accepted = obs.app.iter().any(|a| a.op == AppOp::Accept && a.outcome == "ok");
+    if !accepted {
+        out.fail("c08.backlog/harness-call-not-established", format!("{:?}", obs.app));
+        return;
+    }
+    out.note = Some(format!("session events {:?}", obs.session_events));
+    let mut n = 0;
+    for (t, op) in &net {
+        n += 1;
+        let (branch, method, want) = match op {
+            NetOp::ReInvite => (format!("z9hG4bKc12reinv{n}"), "INVITE", 488u16),
+            NetOp::Bye => (format!("z9hG4bKc12bye{n}"), "BYE", 200u16),
+            _ => continue,
+        };
+        let finals: Vec<(u16, &[u8])> = obs
+            .wire
+            .iter()
+            .filter_map(|(s, m)| m.as_ref().map(|m| (s, m)))
+            .filter(|(_, m)| !m.is_request() && m.via_branch().as_deref() == Some(branch.as_str()) && m.cseq().map_or(false, |c| c.1 == method))
+            .filter(|(_, m)| m.status().unwrap_or(0) >= 200)
+            .map(|(s, m)| (m.status().unwrap_or(0), &s.bytes[..]))
+            .collect();
+        let mut distinct: Vec<&[u8]> = finals.iter().map(|f| f.1).collect();
+        distinct.sort();
+        distinct.dedup();
+        let kind = if method == "INVITE" { "re-invite" } else { "bye" };
+        if finals.is_empty() {
+            out.fail(format!("c08.backlog/{kind}-unanswered"), format!("{method} #{n} sent at {t} ms to a session whose application was busy for {} ms never got a final response", c.busy_ms));
+        } else if distinct.len() > 1 {
+            out.fail(format!("c08.backlog/{kind}-two-different-finals"), format!("{method} #{n} got {:?}", finals.iter().map(|f| f.0).collect::<Vec<_>>()));
+        } else if finals[0].0 != want {
+            out.fail(format!("c08.backlog/{kind}-wrong-code"), format!("{method} #{n} answered {}, the claiming usage/application answers {want}", finals[0].0));
+        }
+    }
+    let seen_reinv = obs.session_events.iter().filter(|e| e.1 == "reinvite").count();
+    if seen_reinv != c.reinvites as usize {
+        out.fail("c08.backlog/application-did-not-see-each-re-invite-once", format!("{} re-INVITEs sent, application saw {seen_reinv}", c.reinvites));
+    }
+    if c.busy_ms > 0 && c.reinvites as usize + c.bye as usize > 4 {
+        out.class("more requests than the session queue holds pile up");
+    }
+    if c.busy_ms > 0 {
+        out.class("application busy");
+    }
+    out.nontrivial(c);
+}
+
 pub fn property() -> Property {
     Property {
         fuzz: vec![],
@@ -839,6 +936,7 @@ pub fn property() -> Property {
             prop_sub("stack", strategy, 2500, 40000, check),
             enum_sub("pending_invite", pending_cases, check_pending),
             enum_sub("reordered_in_dialog", reordered_cases, check_reordered),
+            enum_sub("session_backlog", backlog_cases, check_backlog),
         ],
     }
 }
